@@ -761,6 +761,10 @@ func (ex *Exec) checkWrite(key string, ref *T) {
 		return
 	}
 	conds := []*T{Le(ex.get(ex.oldState, "$alloc"), ref)}
+	if strings.HasPrefix(key, "$M.") {
+		// a nil map has no contents to write (a write through it is a separate obligation)
+		conds = append(conds, Eq(ref, I(0)))
+	}
 	for _, r := range refs {
 		conds = append(conds, Eq(ref, r))
 	}
